@@ -377,6 +377,18 @@ func keyOf(v ssa.Value) (addrKey, bool) {
 		}
 		k.path += fmt.Sprintf(".%d", x.Field)
 		return k, true
+	case *ssa.UnOp:
+		// reload of an intermediate pointer (x.p.f): extend the path through the dereference,
+		// so that two accesses through re-loaded x.p share one key
+		if x.Op == token.MUL {
+			if _, isPtr := x.Type().Underlying().(*types.Pointer); isPtr {
+				if k, ok := keyOf(x.X); ok {
+					k.path += "*"
+					return k, true
+				}
+			}
+		}
+		return addrKey{}, false
 	case *ssa.IndexAddr:
 		if c, ok := x.Index.(*ssa.Const); ok && c.Value != nil {
 			if _, isPtr := x.X.Type().Underlying().(*types.Pointer); isPtr {
@@ -1312,9 +1324,11 @@ func boundsAnalyse(fn *ssa.Function, fset *token.FileSet) []bSite {
 		facts := append([]cons{}, a.blockFacts(ins.Block())...)
 		facts = append(facts, a.inv...)
 		ok := true
-		for _, g := range goals {
+		var unp []string
+		for gi, g := range goals {
 			if !a.prove(facts, g, 0) && !lift(fn, facts, g, 0) {
 				ok = false
+				unp = append(unp, fmt.Sprint(gi))
 			}
 		}
 		p := ins.Pos()
@@ -1330,7 +1344,7 @@ func boundsAnalyse(fn *ssa.Function, fset *token.FileSet) []bSite {
 				}
 			}
 		}
-		sites = append(sites, bSite{ins: ins, pos: fset.Position(p), fn: fn.String(), what: what, ok: ok})
+		sites = append(sites, bSite{ins: ins, goal: strings.Join(unp, ","), pos: fset.Position(p), fn: fn.String(), what: what, ok: ok})
 	}
 	one := konst(1)
 	for _, b := range fn.Blocks {
